@@ -45,6 +45,9 @@ func main() {
 			fmt.Println(err)
 			os.Exit(2)
 		}
+		if *verif != "" {
+			c.resolveRenames(*verif)
+		}
 		debugDump(c, *dump)
 		return
 	}
@@ -116,6 +119,11 @@ func main() {
 			failHard(vdir, id, *tier, seed, err.Error(), *noEvidence, time.Since(t0))
 		}
 		os.Exit(1)
+	}
+	c.resolveRenames(vdir)
+	c.initParamBinding()
+	for _, r := range c.Renames {
+		fmt.Println("note: anchor resolved across a rename:", r)
 	}
 	loadS := time.Since(t0).Seconds()
 
